@@ -35,6 +35,53 @@ def successors(impl, P, exprs, only=None, skip=()):
     return out
 
 
+def toks_of(impl, exprs):
+    import gen
+    out = []
+    for sh in impl.to_shapes(exprs):
+        out += [x for x in gen.flat(sh)]
+    return out
+
+
+def find_return(impl, P, start, target_key, target_toks, max_depth=6, max_nodes=250):
+    """Guided search for a chain of SHRINKING proposals leading from `start` back to the input with key `target_key`
+    (used after a growing proposal: grow-then-shrink cycles such as EliminateVariable followed by ReplaceByChild)."""
+    import collections
+    need = collections.Counter(map(str, target_toks))
+    nodes = [0]
+
+    def dfs(cur, chain, depth):
+        if nodes[0] > max_nodes or depth > max_depth:
+            return None
+        cur_size = len(toks_of(impl, cur))
+        cands = []
+        for cls, res, p in successors(impl, P, cur):
+            if res == 'HANG' or not isinstance(res, list):
+                continue
+            nodes[0] += 1
+            k = key_of(impl, res)
+            if k == target_key:
+                return chain + [cls]
+            tk = toks_of(impl, res)
+            if len(tk) >= cur_size or len(tk) < len(target_toks):
+                continue
+            have = collections.Counter(map(str, tk))
+            if any(have[t] < c for t, c in need.items()):
+                continue
+            cands.append((len(tk), cls, res))
+        cands.sort(key=lambda x: x[0])
+        for _, cls, res in cands[:5]:
+            try:
+                res = impl.nodes.reduplicate(res)
+            except Exception:  # noqa
+                continue
+            r = dfs(res, chain + [cls], depth + 1)
+            if r:
+                return r
+        return None
+    return dfs(start, [], 1)
+
+
 def search_cycles(impl, P, exprs, depth, budget, rng):
     """Bounded search (a search, not a proof) for no-ops and short cycles from exprs. Returns list of findings."""
     findings = []
@@ -48,6 +95,18 @@ def search_cycles(impl, P, exprs, depth, budget, rng):
             continue
         if res is exprs or key_of(impl, res) == k0:
             findings.append(dict(kind='no-op', chain=[cls], node=str(p['node'])[:200]))
+    # grow-then-shrink: after a proposal that makes the input larger, look for a chain of shrinking proposals back
+    base_toks = toks_of(impl, exprs)
+    grow = [(c, r) for c, r, _ in lvl1 if r != 'HANG' and isinstance(r, list) and len(toks_of(impl, r)) > len(base_toks)]
+    for cls1, r1 in grow[:8]:
+        if time.time() - t0 > 25:
+            break
+        try:
+            back = find_return(impl, P, impl.nodes.reduplicate(r1), k0, base_toks)
+        except Exception:  # noqa
+            back = None
+        if back:
+            findings.append(dict(kind=f'{1 + len(back)}-cycle', chain=[cls1] + back, via=impl.render(r1, 'default')[:600]))
     if depth < 2:
         return findings, stats
     cands = [(c, r) for c, r, _ in lvl1 if r != 'HANG' and c not in SHRINKING and key_of(impl, r) != k0]
@@ -103,7 +162,10 @@ def run(ctx):
     inputs += [('corpus', '(set-logic ALL)\n(declare-const x Int)\n(declare-const y Int)\n(assert (= x 0))\n(assert (> y 0))\n(check-sat)\n'),
                ('corpus', '(set-logic ALL)\n(declare-datatype Color ((red) (green)))\n(declare-const x Color)\n(declare-fun p (Color) Bool)\n(assert (p x))\n(assert (p red))\n(check-sat)\n'),
                ('corpus', '(set-logic ALL)\n(define-fun g10 ((p8 Int)) Int (- 1))\n(assert (= (g10 10) 1))\n(check-sat)\n'),
-               ('corpus', '(set-logic ALL)\n(declare-const a Int)\n(assert (let ((x (+ x 1))) (> x a)))\n(check-sat)\n')]
+               ('corpus', '(set-logic ALL)\n(declare-const a Int)\n(assert (let ((x (+ x 1))) (> x a)))\n(check-sat)\n'),
+               ('corpus', '(set-logic ALL)\n(declare-const x Int)\n(assert (= x (+ 1 (* 2 x))))\n(check-sat)\n'),
+               ('corpus', '(set-logic ALL)\n(declare-const y5 (Array Int Bool))\n(declare-const u7 (Array Int Bool))\n(assert (= y5 u7))\n(check-sat)\n'),
+               ('corpus', '(set-logic ALL)\n(declare-const b (_ BitVec 4))\n(declare-const c (_ BitVec 4))\n(assert (= b (bvadd c (bvmul b c))))\n(check-sat)\n')]
     budget = 40 if ctx.thorough else 12
     tot = dict(proposals=0, explored=0)
     for cls, text in inputs:
@@ -133,6 +195,26 @@ def run(ctx):
         j = e2ejobs.job(rng, size='small', extra=['--check-loops'])
         j['timeout'] = 300 if ctx.thorough else 100
         jobs.append(j)
+    # one targeted instance per mutator class, with a command that only insists on one symbol of the instance: every
+    # member of a would-be cycle through that symbol is accepted, so the real strategy walks into it (and --check-loops reports it)
+    display = {}
+    for _, cname, m in P.all_mutators():
+        display[str(m)] = cname
+        display['(global) ' + str(m)] = cname
+    for cls in instances.classes():
+        for _ in range(3 if ctx.thorough else 1):
+            r_ = instances.make(rng, cls)
+            if r_ is None:
+                continue
+            toks = [t for t in e2e.sh_tokens(smtgen.render_shape(r_[1].shape())) if t not in '()' and not t[0].isdigit() and t[0] not in '#"_' and len(t) > 1]
+            names = [t for t in toks if any(ch.isdigit() for ch in t)] or toks      # generated symbols carry a number
+            if not names:
+                continue
+            jobs.append(dict(text=r_[0], opts=['--strategy', 'hierarchical', '-j', '1', '--check-loops'], cmd=[e2e.TOKPRED, 'all', rng.choice(names)],
+                             env={}, timeout=300 if ctx.thorough else 100))
+    # a self-referential equality (occurs check of EliminateVariable) -- corpus
+    jobs.append(dict(text='(set-logic ALL)\n(declare-const x Int)\n(assert (= x (+ 1 (* 2 x))))\n(check-sat)\n',
+                     opts=['--strategy', 'hierarchical', '-j', '1', '--check-loops'], cmd=[e2e.TOKPRED, 'all', 'x', '='], env={}, timeout=100))
     runs = e2e.run_many(jobs)
     for j, r in zip(jobs, runs):
         ctx.case(['run', j['text'], j['opts'], j['cmd'][1:]], len(r.ev('check')) >= 10)
@@ -142,8 +224,23 @@ def run(ctx):
                           observed=f'ddSMT did not terminate within {j["timeout"]} s ({len(r.ev("check"))} tests, {len(r.ev("write"))} adoptions so far)',
                           expected='finitely many tests')
         elif 'already been seen before' in r.stderr:
-            ctx.violation('impl-violation', input=j['text'], options=j['opts'], command=j['cmd'], env=j['env'],
-                          observed='an input was visited twice during one run (--check-loops): ' + r.stderr[r.stderr.find('already been seen'):][:500],
+            # which mutators form the loop: the simplifications accepted between the two visits
+            ws = [e['digest'] for e in r.ev('write')]
+            names = [e['name'] for e in r.ev('consume') if e['success']]
+            parsed = [e['digest'] for e in r.ev('parsed')][:1]
+            seq = parsed + ws
+            chain = None
+            for b in range(len(seq) - 1, 0, -1):
+                for a in range(b - 1, -1, -1):
+                    if seq[a] == seq[b]:
+                        chain = names[a:b]
+                        break
+                if chain is not None:
+                    break
+            classes_ = sorted(set(display.get(n, n) for n in (chain or names[-3:])))
+            ctx.violation('impl-violation', finding_key='cycle:' + '+'.join(classes_), input=j['text'], options=j['opts'], command=j['cmd'], env=j['env'],
+                          chain=[display.get(n, n) for n in (chain or [])],
+                          observed='an input was visited twice during one run (--check-loops) through ' + ' -> '.join(display.get(n, n) for n in (chain or ['?'])),
                           expected='no input is visited twice')
     ctx.assumptions += ['the cycle search is a bounded search (depth 2, sampled depth 3); it supports the theorems, it does not replace them',
                         'strategy loops terminate under a strictly decreasing measure on accepted inputs (theorem no_infinite_run); the measure itself '
